@@ -239,7 +239,7 @@ class C39(Standard):
         cases = []
         for (page, regions) in self.configs(ctx):
             w = cfg_words(page, regions)
-            per = (36 if page <= 64 else 14) if not ctx.thorough else (700 if page <= 64 else 150)
+            per = (100 if page <= 64 else 30) if not ctx.thorough else (1500 if page <= 64 else 300)
             cases.append(Case("oplen", w, opcode_length_family(rng, 0, 20)))
             cases.append(Case("starts", w, boundary_starts(rng, page, regions)))
             for ops in past_the_end(rng, page, regions):
